@@ -165,12 +165,22 @@ func checkEnvelope(run *vt.Run, cs vt.CaseID, c content, zoneAware bool, id stri
 			run.Violation(cs, "plain/unknown-member", "the shard holds an instance that is not in the ring: "+m, detail())
 		}
 	}
+	// eligible = writable instances owning tokens (the walk over the tokens of a zone finds only those); when the
+	// per-zone target covers every registered instance of a zone the whole zone is taken, token-less writable
+	// instances included
 	eligible := map[string]int{}
-	total := 0
+	writable := map[string]int{}
+	registered := map[string]int{}
+	total, totalOwners := 0, 0
 	for _, in := range c {
+		registered[in.Zone]++
 		if !in.ReadOnly {
-			eligible[in.Zone]++
+			writable[in.Zone]++
 			total++
+			if len(in.Tokens) > 0 {
+				eligible[in.Zone]++
+				totalOwners++
+			}
 		}
 	}
 	if size <= 0 {
@@ -181,8 +191,8 @@ func checkEnvelope(run *vt.Run, cs vt.CaseID, c content, zoneAware bool, id stri
 	}
 	if !zoneAware {
 		want := size
-		if total < want {
-			want = total
+		if totalOwners < want {
+			want = totalOwners
 		}
 		if len(got) != want {
 			run.Violation(cs, "plain/wrong-size", fmt.Sprintf("shard has %d instances, expected %d", len(got), want), detail())
@@ -198,7 +208,9 @@ func checkEnvelope(run *vt.Run, cs vt.CaseID, c content, zoneAware bool, id stri
 			}
 		}
 		want := per
-		if eligible[z] < want {
+		if per >= registered[z] {
+			want = writable[z]
+		} else if eligible[z] < want {
 			want = eligible[z]
 		}
 		if n != want {
@@ -214,7 +226,55 @@ func checkEnvelope(run *vt.Run, cs vt.CaseID, c content, zoneAware bool, id stri
 func TestC12(t *testing.T) {
 	run := vt.NewRun("C12", "exploration")
 	run.SetRule("case = (ring content, identifier, size) on a real ring.Ring fed through the store: determinism (two independently built rings, repeated calls), per-zone envelope, no read-only member, monotonic in size, +-1 instance / one read-only toggle changes at most one member on either side (zone set unchanged); look-back: histories of joins, leaves and read-only switches at whole virtual seconds, the plain shard of every probed (identifier, size) recorded per content, ShuffleShardWithLookback at random later instants must contain every still-registered member of every content valid inside the window; the same for PartitionRing over partition state changes. non-trivial = shard smaller than the ring / non-empty history union; distinct by (content, identifier, size[, window]).")
-	run.Assume("every instance has >= 1 token; the set of zones is constant inside a look-back window and for the +-1 clause")
+	run.Assume("every instance has >= 1 token (except in generator tokenless, which judges determinism, envelope and read-only exclusion only); the set of zones is constant inside a look-back window and for the +-1 clause")
+
+	// ---- rings with registered instances that own no tokens yet (outside the quantifier's "1..128 tokens", so
+	// only determinism, the envelope and the read-only exclusion are judged; the +-1 clause does not hold there:
+	// one more registered instance can switch a zone from "take the whole zone" to "walk the tokens")
+	run.ForEachT(t, "tokenless", vt.N(250, 8000), func(t *testing.T, c vt.CaseID, rng *rand.Rand, s *vt.Slot) {
+		s.Enter(c, "crash/tokenless")
+		defer s.Leave()
+		synctest.Test(t, func(t *testing.T) {
+			pool := &tokenPool{used: map[uint32]bool{}}
+			cont, _ := randomContent(rng, pool, 16)
+			for _, id := range sortedIDs(cont) {
+				if rng.IntN(4) == 0 {
+					in := cont[id]
+					in.Tokens, in.NTokens = nil, 0
+					cont[id] = in
+				}
+			}
+			za := rng.IntN(4) != 0
+			r1, stop1, err := freshRing(cont, za, rng.IntN(2) == 0)
+			if err != nil {
+				run.Inconclusive(err.Error())
+				return
+			}
+			defer stop1()
+			r2, stop2, _ := freshRing(cont, za, true)
+			defer stop2()
+			csig := vt.Hash64(cont.sig())
+			for q := 0; q < 4; q++ {
+				id := fmt.Sprintf("tenant-%d", rng.IntN(1000))
+				for size := 0; size <= len(cont)+2; size++ {
+					var a, b []string
+					p, stack := vt.Recover(func() {
+						a = members(r1.ShuffleShard(id, size))
+						b = members(r2.ShuffleShard(id, size))
+					})
+					if p != nil {
+						run.Violation(c, "plain/panic", "ShuffleShard panicked", map[string]any{"ring": cont, "identifier": id, "size": size, "panic": fmt.Sprint(p), "stack": stack})
+						return
+					}
+					run.EvalH(vt.Mix(csig, vt.Hash64(id), uint64(size), 9), size > 0 && len(a) < len(cont))
+					if fmt.Sprint(a) != fmt.Sprint(b) {
+						run.Violation(c, "plain/not-deterministic", "equal ring content gives different shards", map[string]any{"ring": cont, "zone_aware": za, "identifier": id, "size": size, "first": a, "other_ring": b})
+					}
+					checkEnvelope(run, c, cont, za, id, size, a)
+				}
+			}
+		})
+	})
 
 	// ---- static rings: envelope, determinism, monotonicity, +-1 stability
 	run.ForEachT(t, "static", vt.N(700, 30000), func(t *testing.T, c vt.CaseID, rng *rand.Rand, s *vt.Slot) {
